@@ -2529,9 +2529,9 @@ def run(ctx):
         "schematic), nested binders with equal names, a rule's left side under the binder; for abs/top/bottom/top_sweep/sub/"
         "beta_norm conversions, sort_conj/sort_disj and int_norm_conv; judged by the oracle and (combinators) by the Lean model, whose "
         "codec opens binders with names of its own.")
-    ok = ctx.lean_props(["Holpy.C10.Props", "Holpy.C10.PropsPoly", "Holpy.C10.PropsPolySem"], exes=[EXE])
+    ok = ctx.lean_props(["Holpy.C10.Props", "Holpy.C10.PropsPoly", "Holpy.C10.PropsPolySem", "Holpy.C10.PropsNatPoly"], exes=[EXE])
     if ctx.tier == "thorough" and ok:
-        ctx.lean_check_modules(["Holpy.C10.Props", "Holpy.C10.PropsPoly", "Holpy.C10.PropsPolySem"])
+        ctx.lean_check_modules(["Holpy.C10.Props", "Holpy.C10.PropsPoly", "Holpy.C10.PropsPolySem", "Holpy.C10.PropsNatPoly"])
     ctx.coverage["trusted_base"] += [
         "harness/props/c10.py: generators, term codec, ranking of members/atoms by the implementation's own term_ord.fast_compare",
         "kernel.theory.check_proof is the judge of 'checker-accepted' (check_level=0: every macro with an expansion is expanded)",
